@@ -54,6 +54,8 @@ static CAP_TAG: AtomicU64 = AtomicU64::new(0);
 static CAP_JOB: AtomicU64 = AtomicU64::new(0);
 static CUR_JOB: AtomicU64 = AtomicU64::new(0);
 static SITE: Mutex<Option<String>> = Mutex::new(None);
+/// call stack of the largest request so far that was at least an eighth of the bound
+static BIG_SITE: Mutex<Option<String>> = Mutex::new(None);
 
 unsafe extern "C" {
     fn write(fd: i32, buf: *const u8, count: usize) -> isize;
@@ -75,6 +77,8 @@ pub struct Stats {
     pub over_req: u64,
     /// rendered backtrace of the request that crossed the limit
     pub over_backtrace: Option<String>,
+    /// rendered backtrace of the largest request, if that was at least limit / 8
+    pub big_backtrace: Option<String>,
     /// size of a request the system allocator refused (0 = none)
     pub failed: u64,
     /// the limit given to `begin`
@@ -112,6 +116,7 @@ pub fn clear_cap() {
 /// Counters as they stand (used by the supervising thread after a cap event).
 pub fn snapshot() -> Stats {
     let bt = SITE.lock().ok().and_then(|mut s| s.take());
+    let big = BIG_SITE.lock().ok().and_then(|mut s| s.take());
     Stats {
         total: TOTAL.load(Relaxed),
         count: COUNT.load(Relaxed),
@@ -120,6 +125,7 @@ pub fn snapshot() -> Stats {
         over: OVER.load(Relaxed),
         over_req: OVER_REQ.load(Relaxed),
         over_backtrace: bt,
+        big_backtrace: big,
         failed: FAILED.load(Relaxed),
         limit: LIMIT.load(Relaxed),
     }
@@ -168,6 +174,9 @@ pub fn begin_job(limit: u64, job: u64) {
     if let Ok(mut s) = SITE.lock() {
         *s = None;
     }
+    if let Ok(mut s) = BIG_SITE.lock() {
+        *s = None;
+    }
     tls_set(true);
 }
 
@@ -175,6 +184,7 @@ pub fn begin_job(limit: u64, job: u64) {
 pub fn end() -> Stats {
     tls_set(false);
     let bt = SITE.lock().ok().and_then(|mut s| s.take());
+    let big = BIG_SITE.lock().ok().and_then(|mut s| s.take());
     Stats {
         total: TOTAL.load(Relaxed),
         count: COUNT.load(Relaxed),
@@ -183,6 +193,7 @@ pub fn end() -> Stats {
         over: OVER.load(Relaxed),
         over_req: OVER_REQ.load(Relaxed),
         over_backtrace: bt,
+        big_backtrace: big,
         failed: FAILED.load(Relaxed),
         limit: LIMIT.load(Relaxed),
     }
@@ -416,6 +427,12 @@ fn account(size: u64, growth: u64) {
     let t = TOTAL.fetch_add(growth, Relaxed) + growth;
     if size > MAXREQ.load(Relaxed) {
         MAXREQ.store(size, Relaxed);
+        if size >= LIMIT.load(Relaxed) / 8 && CAPTURE_SITE.load(Relaxed) {
+            let bt = fast_backtrace();
+            if let Ok(mut s) = BIG_SITE.lock() {
+                *s = Some(bt);
+            }
+        }
     }
     let live = LIVE.fetch_add(growth, Relaxed) + growth;
     if live > PEAK.load(Relaxed) {
